@@ -162,6 +162,30 @@ class Schema(ResolverMap):
     ) -> None:
         busted_cache = False
 
+        # Refuse the whole request before touching anything: an error raised
+        # half way through would leave replaced types behind a stale
+        # validation verdict and stale type references.
+        for type_name, new_type in (types or {}).items():
+            checked_type = self.types.get(type_name)
+            if checked_type is None:
+                continue
+            if checked_type in _PROTECTED_TYPES:
+                raise SchemaError(
+                    "Cannot replace specified type %s" % checked_type
+                )
+            if new_type is not None and type(checked_type) != type(new_type):
+                raise SchemaError(
+                    "Cannot replace type %r with a different kind of type %r."
+                    % (checked_type, new_type)
+                )
+
+        for directive_name in directives or {}:
+            if self.directives.get(directive_name) in SPECIFIED_DIRECTIVES:
+                raise SchemaError(
+                    "Cannot replace specified directive %s"
+                    % self.directives[directive_name]
+                )
+
         for type_name, new_type in (types or {}).items():
             try:
                 original_type = self.types[type_name]
